@@ -832,6 +832,8 @@ def _variants():
         V("column-primes-offset", replace_expr(PE, "Perm.count_column_sum_primes", "val + idx + 2", "val + idx + 1"), "fire", "C11-D1"),
         V("non-inversions-formula", replace_expr(PE, "Perm.count_non_inversions", "n * (n - 1) // 2", "n * (n + 1) // 2"), "fire", "C11-D1"),
         V("longest-desc-run-reverse", replace_expr(PE, "Perm.length_of_longestrun_descending", "self.complement()", "self.inverse()"), "fire-or-undecided", "C11-D1"),
+        V("layers-standardised", replace_expr(PE, "Perm.rtlmax_ltrmin_decomposition", "Perm((perm[i] for i in range(len(perm)) if i not in pos_set))", "Perm.to_standard((perm[i] for i in range(len(perm)) if i not in pos_set))"), "silent", note="the repair of known finding C11-L1"),
+        V("remove-without-renumbering", replace_expr(PE, "Perm.remove_element", "Perm((val if val < selected else val - 1 for val in self if val != selected))", "Perm((val for val in self if val != selected)).inverse()"), "fire", "C11-L1"),
         # silent
         V("reformat-statistics", reformat_only(ST), "silent"),
         V("count-len-list", replace_expr(PE, "Perm.count_peaks", "sum((1 for _ in self.peaks()))", "len(list(self.peaks()))"), "silent"),
@@ -843,3 +845,78 @@ def _variants():
                                               "for k, v in bijection.items():\n    if self.func(k) != self.func(v):\n        return False\nreturn True"), "silent"),
         V("rename-table-var", rename_local(ST, "PermutationStatistic.check_all_transformed", "transf", "found"), "silent"),
     ]
+
+
+# ------------------------------------------------------------------ L1: a sub-permutation is standardised before Perm methods run on it
+
+
+def rule_l1(ctx: Ctx) -> None:
+    """Scans (ltrmin, rtlmax, ...) use len(self) / -1 as sentinels and index by value: they assume the values are
+    0..n-1.  A Perm built from a *subset* of the entries of another one (filtered comprehension or slice) has other
+    values; it must be renumbered (element expression is not the bare entry) or go through to_standard before a Perm
+    method is called on it."""
+    repo = ctx.repo
+    n = 0
+    for fi in repo.all_funcs():
+        if fi.cls is None or fi.cls.name != "Perm":
+            continue
+        for node in walk_no_nested(fi.node):
+            if not (isinstance(node, ast.Call) and unparse(node.func) in ("Perm", "cls", "type(self)", "self.__class__", "Perm.to_standard", "cls.to_standard") and len(node.args) == 1):
+                continue
+            a = node.args[0]
+            bare = None
+            if unparse(node.func).endswith(".to_standard"):
+                if (isinstance(a, (ast.GeneratorExp, ast.ListComp)) and any(g.ifs for g in a.generators)) or (isinstance(a, ast.Subscript) and isinstance(a.slice, ast.Slice)):
+                    n += 1
+                    ctx.ok("C11-L1", fi.where, f"sub-permutation `{unparse(node)[:70]}` is standardised", stmt_containing(fi, node), fi)
+                continue
+            if isinstance(a, (ast.GeneratorExp, ast.ListComp)) and any(g.ifs for g in a.generators):
+                elt = a.elt
+                tgt_names = {x.id for g in a.generators for x in ast.walk(g.target) if isinstance(x, ast.Name)}
+                # bare entry: the loop variable itself, or src[loop variable]
+                bare = (isinstance(elt, ast.Name) and elt.id in tgt_names) or (isinstance(elt, ast.Subscript) and isinstance(elt.slice, ast.Name) and elt.slice.id in tgt_names)
+            elif isinstance(a, ast.Subscript) and isinstance(a.slice, ast.Slice):
+                bare = True
+            if bare is None:
+                continue
+            n += 1
+            st = stmt_containing(fi, node)
+            if not bare:
+                ctx.ok("C11-L1", fi.where, f"sub-permutation `{unparse(node)[:70]}` renumbers its entries", st, fi)
+                continue
+            # is a Perm method called on the result?
+            used = False
+            if isinstance(st, ast.Assign) and len(st.targets) == 1 and isinstance(st.targets[0], ast.Name) and st.value is node:
+                nm = st.targets[0].id
+                for m in walk_no_nested(fi.node):
+                    if isinstance(m, ast.Call) and isinstance(m.func, ast.Attribute) and isinstance(m.func.value, ast.Name) and m.func.value.id == nm and repo.method("Perm", m.func.attr) is not None:
+                        used = True
+            else:
+                par = [m for m in walk_no_nested(fi.node) if isinstance(m, ast.Attribute) and m.value is node]
+                used = bool(par)
+            if used:
+                ctx.violation("C11-L1", fi, st, f"`{unparse(node)[:80]}` keeps the original values of a subset of the entries (not a permutation of 0..k-1) and Perm methods are then called on it; the scans that use len(self) / -1 as sentinels give wrong answers on it")
+            else:
+                ctx.ok("C11-L1", fi.where, f"`{unparse(node)[:60]}`: no Perm method is called on the un-standardised value", st, fi)
+    if n < 3:
+        raise AnalysisError(f"only {n} sub-permutation constructions found in Perm (3 confirmed by hand)")
+
+
+def stmt_containing(fi: FuncInfo, node: ast.AST) -> ast.stmt:
+    best = None
+    for st in walk_no_nested(fi.node):
+        if isinstance(st, ast.stmt) and st is not fi.node and any(sub is node for sub in ast.walk(st)):
+            if best is None or sum(1 for _ in ast.walk(st)) < sum(1 for _ in ast.walk(best)):
+                best = st
+    return best if best is not None else fi.node
+
+
+_OLD_RUN_L1 = run
+
+
+def run(ctx: Ctx) -> None:  # noqa: F811
+    _OLD_RUN_L1(ctx)
+    ctx.run(rule_l1, ctx)
+
+
+FLOORS["C11-L1"] = 3
